@@ -26,33 +26,33 @@ Theorem C09_required_guards_present :
   (well_formed tlcp_do_connect_guards &&
    has_guard tlcp_do_connect_guards "x509_certs_verify_tlcp" "!=1" [ANCH] &&
    has_guard tlcp_do_connect_guards "sm2_verify_finish" "!=1" [] &&
-   has_guard tlcp_do_connect_guards "memcmp" "!=0" []) &&
+   has_guard tlcp_do_connect_guards "memcmp(verify_data,local_verify_data)" "!=0" []) &&
   (well_formed tls12_do_connect_guards &&
    has_guard tls12_do_connect_guards "x509_certs_verify" "!=1" [] &&
    has_guard tls12_do_connect_guards "tls_verify_server_ecdh_params" "!=1" [] &&
-   has_guard tls12_do_connect_guards "memcmp" "!=0" []) &&
+   has_guard tls12_do_connect_guards "memcmp(verify_data,local_verify_data)" "!=0" []) &&
   (well_formed tls13_do_connect_guards &&
    has_guard tls13_do_connect_guards "x509_certs_verify" "!=1" [] &&
    has_guard tls13_do_connect_guards "tls13_verify_certificate_verify" "!=1" [] &&
-   has_guard tls13_do_connect_guards "memcmp" "!=0" []) &&
+   has_guard tls13_do_connect_guards "memcmp(server_verify_data,verify_data)" "!=0" []) &&
   (well_formed tlcp_do_accept_guards &&
    has_guard tlcp_do_accept_guards "tls_record_get_handshake_certificate" "!=1" [ANCH] &&
    has_guard tlcp_do_accept_guards "x509_certs_verify" "!=1" [ANCH] &&
    has_guard tlcp_do_accept_guards "x509_certs_get_cert_by_index" "!=1" [CAUTH] &&
    has_guard tlcp_do_accept_guards "sm2_verify_finish" "!=1" [CAUTH] &&
-   has_guard tlcp_do_accept_guards "memcmp" "!=0" []) &&
+   has_guard tlcp_do_accept_guards "memcmp(verify_data,local_verify_data)" "!=0" []) &&
   (well_formed tls12_do_accept_guards &&
    has_guard tls12_do_accept_guards "tls_record_get_handshake_certificate" "!=1" [ANCH] &&
    has_guard tls12_do_accept_guards "x509_certs_verify" "!=1" [ANCH] &&
    has_guard tls12_do_accept_guards "x509_certs_get_cert_by_index" "!=1" [CAUTH] &&
    has_guard tls12_do_accept_guards "tls_client_verify_finish" "!=1" [CAUTH] &&
-   has_guard tls12_do_accept_guards "memcmp" "!=0" []) &&
+   has_guard tls12_do_accept_guards "memcmp(verify_data,local_verify_data)" "!=0" []) &&
   (well_formed tls13_do_accept_guards &&
    has_guard tls13_do_accept_guards "tls13_process_certificate_list" "!=1" [CAUTH] &&
    has_guard tls13_do_accept_guards "x509_certs_get_cert_by_index" "!=1" [CAUTH] &&
    has_guard tls13_do_accept_guards "x509_certs_verify" "!=1" [CAUTH] &&
    has_guard tls13_do_accept_guards "tls13_verify_certificate_verify" "!=1" [CAUTH] &&
-   has_guard tls13_do_accept_guards "memcmp" "!=0" []) = true.
+   has_guard tls13_do_accept_guards "memcmp(client_verify_data,verify_data)" "!=0" []) = true.
 Proof. exact required_guards_present. Qed.
 Print Assumptions C09_required_guards_present.
 
